@@ -129,6 +129,12 @@ Definition first_sub_gen {X : Type} (rx : rxo) (path : bytes) (f : node -> bytes
         end
     end.
 
+(* how a refusing middleware answers; the instrumented middleware of the harness picks its style from its id:
+   below 1000 it writes a complete 403 error response (and thereby closes), below 2000 it writes nothing at all,
+   otherwise it writes a fragment of its own and leaves the connection open *)
+Definition refuse_aops (id : Z) : list aop :=
+  if Z.ltb id 1000 then [AWriteError 403 None] else if Z.ltb id 2000 then [] else [AWrite (B "denied")].
+
 (* the middleware chain of one handler, followed by [after] when none refuses *)
 Definition chain (after : list aop) : list (Z * bool) -> list aop :=
   fix go (m : list (Z * bool)) : list aop :=
@@ -136,7 +142,7 @@ Definition chain (after : list aop) : list (Z * bool) -> list aop :=
     | [] => after
     | (id, acc) :: m' =>
         ANote (VL [VI 30; VI id]) ::
-        (if acc then go m' else [AWriteError 403 None])   (* the refusing middleware answers *)
+        (if acc then go m' else refuse_aops id)   (* the refusing middleware answers, nothing else follows *)
     end.
 
 Fixpoint route (rx : rxo) (n : node) (path : bytes) {struct n} : list aop :=
